@@ -33,6 +33,12 @@ class PathSummary:
         return {"literals": sorted(repr(l) for l in self.lits), "opaque": sorted(f"{'' if p else 'not '}{t}" for t, p in self.opaque), "writes": {k: repr(v) for k, v in self.state.vals.items()}, "returns": norm(self.ret) if self.ret is not None else None, "kind": self.kind}
 
 
+def _subst_rest(form, vals):
+    """lin() under env.state has already replaced plain names / attributes / subscripts by their current forms; what is left
+    to replace are composite atoms.  An atom whose current form mentions the atom itself (x = x + n) was replaced already."""
+    return subst_form(form, {a: f for a, f in vals.items() if a not in f.atoms()})
+
+
 def inline_simple_locals(e, fi):
     """replace single-assignment locals that merely name a subscript / attribute / method-call-free expression
     (`a_val = a[key]`, `stripped = line.strip()`) by that expression, so that opaque literals are spelled the same
@@ -95,7 +101,7 @@ def _expand_test(e, pol, fi, env, ps, state, data_eq=None):
         env.state = state
         try:
             l = literal(e, env, pol)
-            ps.lits.add(Lit(subst_form(l.form, state.vals), l.op))
+            ps.lits.add(Lit(_subst_rest(l.form, state.vals), l.op))
             return
         except NonAffine:
             pass
@@ -146,7 +152,7 @@ def _expand_alts(e, pol, fi, env, state, data_eq=None):
         if isinstance(e, ast.Compare):
             try:
                 l = literal(e, env, pol)
-                return one(lits=[Lit(subst_form(l.form, state.vals), l.op)])
+                return one(lits=[Lit(_subst_rest(l.form, state.vals), l.op)])
             except NonAffine:
                 pass
         elif (isinstance(e, ast.Name) and e.id in state.vals and len(state.vals[e.id].terms) + (1 if state.vals[e.id].const else 0) > 1) or (isinstance(e, ast.Attribute) and e.attr == "duration"):
